@@ -76,7 +76,7 @@ def fp_disable():
 # ---------------------------------------------------------------- the patch cycle (run in dry mode and in children)
 
 
-def cycle(d, clsname, seed, big=0, snap=None, ready=None):
+def cycle(d, clsname, seed, big=0, snap=None, ready=None, want_state=False):
     """One patch cycle. snap(tag, rec) is called after every API call in the dry run."""
     cls = RE.CLS[clsname]
     _fp["on"] = True
@@ -102,15 +102,39 @@ def cycle(d, clsname, seed, big=0, snap=None, ready=None):
     rec.commit_patch()
     if snap:
         snap("commit", rec)
+    _fp["on"] = False
+    state = rec_state(rec, d) if want_state else None
+    _fp["on"] = True
     rec.close()
     _fp["on"] = False
-    return view
+    return (view, state) if want_state else view
 
 
 # ---------------------------------------------------------------- oracle
 
 
-def oracle(cls, d, committed, ledger, view_commit, view_new):
+def rec_state(rec, d):
+    """Record-level committed state beyond the data tree: user-block extension sections of the newest
+    container (on disk) and, for IH5MFRecord, the manifest the record presents (extensions, skeleton)."""
+    import json as _json
+    newest = Path(rec.ih5_files[-1])
+    try:
+        ub = RE.disk_ublock(newest)
+        st = {"ub_ext_sections": sorted(ub.get("ub_exts", {}))}
+    except Exception as e:
+        st = {"ub_ext_sections": f"unreadable: {e}"}
+    if isinstance(rec, RE.IH5MFRecord):
+        try:
+            m = rec.manifest
+            st["manifest_exts"] = m.manifest_exts
+            st["manifest_skeleton"] = _json.loads(m.skeleton.json())
+        except Exception as e:
+            st["manifest"] = f"NO MANIFEST ({type(e).__name__})"
+    return st
+
+
+
+def oracle(cls, d, committed, ledger, view_commit, view_new, state_commit=None, state_new=None):
     """-> (outcome, None) or (None, (kind, detail))."""
     d = Path(d)
     for name, sig in ledger.items():
@@ -139,11 +163,20 @@ def oracle(cls, d, committed, ledger, view_commit, view_new):
         if len(files) == len(committed):
             if v != view_commit:
                 return None, ("clean-open-wrong-state", "record opens cleanly at the old commit with another state")
+            if state_commit is not None and rec_state(r, d) != state_commit:
+                return None, ("clean-open-wrong-record-state", "record opens cleanly at the old commit but manifest/user-block extensions differ from the committed ones")
             return "opens-committed-old", None
         if v != view_new:
             df = E.diff_dumps(v, view_new)
             return None, ("clean-open-unwritten-state",
                           f"record opens cleanly (newest container carries a hash) with a state that was not written: {df[2] if df else ''}")
+        if state_new is not None:
+            got = rec_state(r, d)
+            if got != state_new:
+                k = next(k for k in set(got) | set(state_new) if got.get(k) != state_new.get(k))
+                return None, ("clean-open-incomplete-commit",
+                              f"record opens cleanly with the newest container marked committed, but it is not the fully committed state: "
+                              f"{k} = {str(got.get(k))[:120]} (uncrashed commit: {str(state_new.get(k))[:120]})")
         return "opens-committed-new", None
     except Exception as e:
         return None, ("clean-open-unreadable", f"record opens cleanly but reading fails: {type(e).__name__}: {e}")
@@ -164,6 +197,7 @@ def run_record(acc, base, clsname, seed, tier, engines):
     rec, _, commits = RE.build_record(rng, pre, "rec", cls, rng.randint(1, 3), ops_per=(1, 5), exts_prob=0.3)
     committed = [Path(p).name for p in rec.ih5_files]
     view_commit = E.dump_walk(rec)
+    state_commit = rec_state(rec, pre)
     rec.close()
     ledger = {n: s for n, s in fsmon.dir_state(pre).items()}
     cseed = rng.randrange(1 << 30)
@@ -176,8 +210,10 @@ def run_record(acc, base, clsname, seed, tier, engines):
         shutil.copytree(pre, w)
         return w
 
+    states = {}
+
     def judge(engine, point, w, view_new, nontrivial=True):
-        out, bad = oracle(cls, w, committed, ledger, view_commit, view_new)
+        out, bad = oracle(cls, w, committed, ledger, view_commit, view_new, state_commit, states.get(id(view_new)))
         acc.case([rid, engine, point], nontrivial=nontrivial)
         if bad:
             acc.violation(f"{bad[0]}:{engine}:{clsname}", f"{bad[1]} [engine {engine}, crash point {point}, record {rid}]",
@@ -222,7 +258,8 @@ def run_record(acc, base, clsname, seed, tier, engines):
     _fp.update(n=0, kill_at=None, names=[])
     fp_enable()
     try:
-        view_new = cycle(w, clsname, cseed, snap=snap)
+        view_new, st_new = cycle(w, clsname, cseed, snap=snap, want_state=True)
+        states[id(view_new)] = st_new
     finally:
         fp_disable()
         IH5UserBlock.save, IH5Manifest.save = orig_save, orig_msave
@@ -299,7 +336,8 @@ def run_record(acc, base, clsname, seed, tier, engines):
     # ---- E4: random-instant SIGKILL while writing large datasets
     if "E4" in engines:
         w = fresh("dryb")
-        view_big = cycle(w, clsname, cseed, big=2)
+        view_big, st_big = cycle(w, clsname, cseed, big=2, want_state=True)
+        states[id(view_big)] = st_big
         shutil.rmtree(w, ignore_errors=True)
         n4 = 10 if tier == "quick" else 150
         for j in range(n4):
